@@ -381,3 +381,44 @@ _CLS_MASK = (
 T("C04", "twin-codec-class-table-static-mask-helper", F, "", "", edits=_cls_tables(_CLS_MASK) + [(F, _T_MASK_BRANCH, ""), (F, _R_MASK_BRANCH, "")])
 M("C04", "codec-class-table-mask-split-at-two", F, "", "", "C04.R6",
   edits=_cls_tables(_CLS_MASK.replace("xor(raw[4:], raw[:4])", "xor(raw[2:], raw[:2])")) + [(F, _T_MASK_BRANCH, ""), (F, _R_MASK_BRANCH, "")])
+
+# ------------------------------------------------------------------------------------------------ a location is read back exactly (R9)
+# (wave 3: transform leaving `old(P) (+) data` in a termination location while recover takes the whole location.  The
+# unchanged tree has exactly this for uri_append - a known finding, construct `uri_append reads back only what was placed` -
+# so respellings of that branch must produce the SAME construct (silent here = no new violation), and the same kind of
+# change at the other three locations must be a fresh violation.)
+_T_PRINT = "                body = data\n"
+_T_PARAM = "                params[step_val] = data\n"
+_T_URI = "                uri += data\n"
+_T_URI_BRANCH = "            elif step == \"uri_append\":\n" + _T_URI
+_R_URI = "                data = http.uri\n"
+M("C04", "print-appends-to-initial-body", F, _T_PRINT, "                body += data\n", "C04.R9")
+M("C04", "print-joins-initial-body", F, _T_PRINT, "                body = b\"\".join([body, data])\n", "C04.R9")
+M("C04", "print-appends-unless-body-empty", F, _T_PRINT, "                body = body + data if body else data\n", "C04.R9")
+M("C04", "print-constant-marker-stored-with-payload", F, _T_PRINT, "                body = b\"data=\" + data\n", "C04.R9")
+M("C04", "header-concatenates-existing-value", F, _T_HEADER, "                headers[step_val] = headers.get(step_val, b\"\") + data\n", "C04.R9")
+M("C04", "header-update-concatenates-existing-value", F, _T_HEADER, "                headers.update({step_val: headers[step_val] + data if step_val in headers else data})\n", "C04.R9")
+M("C04", "parameter-setdefault-keeps-existing-value", F, _T_PARAM, "                params.setdefault(step_val, data)\n", "C04.R9")
+M("C04", "parameter-placed-only-when-absent", F, _T_PARAM, "                if step_val not in params:\n                    params[step_val] = data\n", "C04.R9")
+T("C04", "twin-print-guarded-by-empty-body", F, _T_PRINT, "                body = data if not body else data\n")
+T("C04", "twin-print-cast", F, _T_PRINT, "                body = bytes(data)\n")
+T("C04", "twin-print-empty-join", F, _T_PRINT, "                body = b\"\".join([data])\n")
+# respellings of the uri_append branch: same finding, same construct text
+T("C04", "twin-uri-append-spelled-out", F, _T_URI, "                uri = uri + data\n")
+T("C04", "twin-uri-append-join", F, _T_URI, "                uri = b\"\".join((uri, data))\n")
+T("C04", "twin-uri-append-temporary", F, _T_URI, "                path = uri\n                uri = path + data\n")
+T("C04", "twin-uri-append-helper", F, "", "",
+  edits=[(F, _CLASS, "def _extend_uri(path: bytes, tail: bytes) -> bytes:\n    return path + tail\n\n\n" + _CLASS), (F, _T_URI, "                uri = _extend_uri(uri, data)\n")])
+T("C04", "twin-uri-append-static-helper", F, "", "",
+  edits=[(F, _CLASS, _CLASS + "    @staticmethod\n    def _extend_uri(path: bytes, tail: bytes) -> bytes:\n        return path + tail\n\n"), (F, _T_URI, "                uri = self._extend_uri(uri, data)\n")])
+T("C04", "twin-uri-append-table-entry", F, "", "",
+  edits=[(F, _CLASS, "_URI_PLACEMENTS = {\"uri_append\": lambda path, tail: path + tail}\n\n\n" + _CLASS),
+         (F, _T_URI_BRANCH, "            elif step in _URI_PLACEMENTS:\n                uri = _URI_PLACEMENTS[step](uri, data)\n")])
+T("C04", "twin-uri-recover-through-local", F, _R_URI, "                whole_uri = http.uri\n                data = whole_uri\n")
+T("C04", "twin-uri-recover-getattr", F, _R_URI, "                data = getattr(http, \"uri\")\n")
+# the payload is cut out of its location by position only: a search for bytes in a location holding an arbitrary payload is not exact
+M("C04", "uri-recover-last-path-segment", F, _R_URI, "                data = http.uri.rpartition(b\"/\")[2]\n", "C04.R9")
+M("C04", "uri-recover-after-last-slash-by-index", F, _R_URI, "                data = http.uri[http.uri.rfind(b\"/\") + 1 :]\n", "C04.R9")
+M("C04", "body-recover-stripped", F, "                data = http.body\n", "                data = http.body.strip()\n", "C04.R9")
+M("C04", "header-recover-after-equals-sign", F, "                data = http.headers[step_val]\n", "                data = http.headers[step_val].split(b\"=\", 1)[-1]\n", "C04.R9")
+M("C04", "parameter-recover-plus-as-space", F, "                data = http.params[step_val]\n", "                raw = http.params[step_val]\n                data = raw.replace(b\"+\", b\" \")\n", "C04.R9")
